@@ -6,6 +6,7 @@ import (
 	"testing"
 	"time"
 
+	corev1 "k8s.io/api/core/v1"
 	metav1 "k8s.io/apimachinery/pkg/apis/meta/v1"
 	"pgregory.net/rapid"
 
@@ -18,7 +19,7 @@ import (
 )
 
 // nodeKinds of the C03 layout generator (the assignment the property quantifies over).
-var c03Kinds = []string{"none", "new-available", "new-unavailable", "old-available", "old-available", "old-unavailable", "old-unavailable", "old-terminating", "old-terminating-unready", "new-terminating-unready", "old-stuck-unscheduled", "old-terminating-past-grace", "adopted-available", "adopted-unavailable", "old-failed", "old-failed-x2", "new-failed-x2", "old-available-skewed"}
+var c03Kinds = []string{"none", "new-available", "new-unavailable", "old-available", "old-available", "old-unavailable", "old-unavailable", "old-terminating", "old-terminating-unready", "new-terminating-unready", "old-stuck-unscheduled", "old-terminating-past-grace", "adopted-available", "adopted-unavailable", "old-failed", "old-failed-x2", "new-failed-x2", "old-available-skewed", "tainted-node", "tainted-node"}
 
 func forksN() int {
 	if thorough() {
@@ -30,7 +31,7 @@ func forksN() int {
 // TestC03Budget: one sync of the active replica set over a generated layout,
 // executed on several forks of the store (Go map order), judged by the budget monitor.
 func TestC03Budget(t *testing.T) {
-	rec := evid.New("TestC03Budget", "C03", "layout = 1-12 targeted nodes each in {no pod, up-to-date available/unavailable, outdated available (Ready transition in the past or stamped 2s ahead by a skewed kubelet clock)/unavailable/terminating (Ready or not, inside the grace period), up-to-date terminating, stuck unscheduled >10min, terminating past grace, adopted old-DaemonSet pod available/unavailable, one or two pods in phase Failed (the second is kept by the failed-pod back-off)}; the outdated template plain or with its own matchFields exclusion on the node name; both node-assignment modes x maxUnavailable x maxPodSchedulerFailure (int or percent), one active sync on several store forks; non-trivial = at least one outdated-available and one outdated-unavailable pod and fewer deletions allowed than candidates; distinct by layout+strategy rendering")
+	rec := evid.New("TestC03Budget", "C03", "layout = 1-12 nodes each untargeted (untolerated taint) or targeted and in {no pod, up-to-date available/unavailable, outdated available (Ready transition in the past or stamped 2s ahead by a skewed kubelet clock)/unavailable/terminating (Ready or not, inside the grace period), up-to-date terminating, stuck unscheduled >10min, terminating past grace, adopted old-DaemonSet pod available/unavailable, one or two pods in phase Failed (the second is kept by the failed-pod back-off)}; the outdated template plain or with its own matchFields exclusion on the node name; both node-assignment modes x maxUnavailable x maxPodSchedulerFailure (int or percent), one active sync on several store forks; non-trivial = at least one outdated-available and one outdated-unavailable pod and fewer deletions allowed than candidates; distinct by layout+strategy rendering")
 	t.Cleanup(func() {
 		if !t.Failed() {
 			rec.Done()
@@ -49,10 +50,15 @@ func TestC03Budget(t *testing.T) {
 			if strings.HasPrefix(kinds[i], "adopted") {
 				migration = true
 			}
-			c.AddNode(fmt.Sprintf("n%02d", i), map[string]string{"zone": "a", "tier": "a"}, nil)
+			var taints []corev1.Taint
+			if kinds[i] == "tainted-node" {
+				// listed for the replica set but not targeted (untolerated taint, no pod): must not count in the percentage base
+				taints = []corev1.Taint{{Key: "dedicated", Value: "gpu", Effect: corev1.TaintEffectNoSchedule}}
+			}
+			c.AddNode(fmt.Sprintf("n%02d", i), map[string]string{"zone": "a", "tier": "a"}, taints)
 		}
 		st := edsv1.ExtendedDaemonSetSpecStrategy{}
-		st.RollingUpdate.MaxUnavailable = gen.IntOrPercent(rt, "maxUnavailable", []string{"1", "2", "3", "5", "10%", "30%", "50%", "100%"})
+		st.RollingUpdate.MaxUnavailable = gen.IntOrPercent(rt, "maxUnavailable", []string{"1", "2", "3", "5", "10%", "25%", "30%", "50%", "100%"})
 		st.RollingUpdate.MaxPodSchedulerFailure = gen.IntOrPercent(rt, "maxPodSchedulerFailure", []string{"0", "0", "1", "2", "20%", "100%"})
 		var ann map[string]string
 		if migration {
